@@ -1,17 +1,19 @@
 CFG = dict(
-    theorems=["C10.each_once_counting", "C10.session_bounds", "C10.no_early_delivery", "C10.gap_splits", "C10.open_sessions_apart", "C10.joins_exactly_the_touched"],
-    unproved=["schedule independence for in-order input as a theorem over pairs of schedules (checked on implementation traces by the reference-sessionization clause of the oracle at flush)"],
+    theorems=["C10.each_once_counting", "C10.session_bounds", "C10.no_early_delivery", "C10.gap_splits", "C10.open_sessions_apart", "C10.joins_exactly_the_touched",
+              "C10.inorder_outcome_is_reference", "C10.reference_ignores_schedule", "C10.schedule_independent", "C10.delivered_is_reference_after_flush"],
+    unproved=[],
     rule="event-time session op sequences over 1-3 keys: dense bursts, gaps timeout-1 / timeout / timeout+1 / 3*timeout+, in-order per case with prob 2/3 else out of order within and beyond the tolerance (incl. events that bridge two open sessions), "
          "far-future and timestamp-less rows, deliveries at arbitrary positions incl. Adds in the unlock gap; SQL-level cases through the public API; distinct = distinct (cfg, op list)",
     assumptions=["one expiry pass delivers its sessions in Go map order: the harness canonicalises each pass (key, start)",
                  "row order inside a merged session (earlier session's rows first, the bridging row last) is compared as coded; the property does not order rows inside a session",
                  "two events exactly the timeout apart: the property allows either; code and model start a new session (ts >= end), which makes the outcome schedule-independent",
+                 "schedule independence is proved for in-order histories (every Add's timestamp >= every earlier Add's, over all keys) without idle-timeout ticks and MAXOUTOFORDERNESS >= 0, as equality of the sets of sessions (key, start, end, rows); multiplicities are each_once_counting's",
                  "pre-1970 timestamps outside the generator; processing-time session windows are not modelled",
                  "mutex mutual exclusion: every op is one critical section; the harness drives the real window without its goroutines"],
 )
 META = dict(
    text="Proof: for every timeout, tolerance, key set and op sequence of the session model (several open sessions per key, merge on bridge): open+delivered rows = rows accepted on time (each once), every delivered session is non-empty with window_start = earliest row and window_end = latest row + timeout, "
-        "it satisfies the gap clause (consecutive timestamps within the timeout, rows further apart with nothing in between never together), it is delivered only at or below the watermark, and open sessions of one key always stay a full timeout apart (Lean theorems, unbounded). "
-        "Tied to window/session_window.go by replaying generated op sequences on the real SessionWindow and comparing every delivery; a declarative oracle (gap clause, bounds, maximality, reference sessionization at flush) runs on the implementation's deliveries, also at SQL level.",
-   note="Trusted: Lean kernel; hand-written model tied by correspondence; Go mutex semantics; harness. Schedule independence is checked by the oracle on traces (reference sessionization), not proved as a theorem about pairs of schedules.",
+        "it satisfies the gap clause (consecutive timestamps within the timeout, rows further apart with nothing in between never together), it is delivered only at or below the watermark, open sessions of one key always stay a full timeout apart, and for in-order input the delivered plus the open sessions are exactly the sessions of a reference sessionization that looks at the Adds only, so two schedules of the same Adds produce the same sessions (Lean theorems, unbounded). "
+        "Tied to window/session_window.go by replaying generated op sequences on the real SessionWindow and comparing every delivery; a declarative oracle (gap clause, bounds, maximality, reference sessionization at flush, and for in-order histories membership in the theorem's `reference`) runs on the implementation's deliveries, also at SQL level.",
+   note="Trusted: Lean kernel; hand-written model tied by correspondence; Go mutex semantics; harness.",
 )
